@@ -464,7 +464,17 @@ func (g *sgen) inherit(it *m.Item, used map[string]bool, exact bool) {
 					extra.Type.NonNull = true
 					extra.Default = g.ConstValue(extra.Type, 2)
 				}
-				f.Args = append(f.Args, extra)
+				// anywhere among the interface's arguments: the rules match arguments by name, not by position
+				at := g.r.Intn(len(f.Args) + 1)
+				f.Args = append(f.Args[:at], append([]*m.ArgDef{extra}, f.Args[at:]...)...)
+			}
+			if !exact && len(f.Args) > 1 && g.r.Chance(1, 3) {
+				p := g.r.Perm(len(f.Args))
+				sh := make([]*m.ArgDef, len(f.Args))
+				for i, j := range p {
+					sh[i] = f.Args[j]
+				}
+				f.Args = sh
 			}
 			it.Fields = append(it.Fields, f)
 		}
